@@ -142,6 +142,97 @@ theorem T_C18_sem_impl (ev : Toks → Bool) (v : Variant) (attr : Toks) (m : Imp
   rw [him]
   exact kept_of_mirrors ev _ (fun _ => rfl) _ _ _ hmir
 
+/-! ### entraited traits: every attribute of a method is mirrored, so every build agrees about which methods exist -/
+
+/-- names of the methods of the user's trait a build keeps -/
+def keptTraitFns (ev : Toks → Bool) (fs : List TraitFnItem) : List String :=
+  (fs.filter (fun f => kept ev f.attrs)).map (·.sig.ident)
+
+theorem kept_traitFnOf (ev : Toks → Bool) (fs : List TraitFnItem) :
+    ((fs.map traitFnOf).filter (fun tf => kept ev tf.attrs)).map (·.sig.ident) = keptTraitFns ev fs := by
+  unfold keptTraitFns
+  induction fs with
+  | nil => rfl
+  | cons f fs ih =>
+    have h1 : (traitFnOf f).attrs = f.attrs := rfl
+    have h2 : (traitFnOf f).sig.ident = f.sig.ident := rfl
+    rw [List.map_cons, List.filter_cons, List.filter_cons, h1]
+    cases kept ev f.attrs
+    · simpa using ih
+    · simp only [if_true, List.map_cons, h2, ih]
+
+/-- for every expansion of an entraited trait and every evaluation of `cfg` predicates: the methods the build
+    keeps on the re-emitted trait, on the delegation-target trait (if one is generated) and on the delegating impl
+    for `Impl<T>` are exactly the methods of the user's trait that the build keeps -/
+theorem T_C18_sem_trait (ev : Toks → Bool) (v : Variant) (attr : Toks) (t : TraitItem) (out : Out)
+    (h : expand v attr (.trait t) = .ok out) :
+    (traitsOf out.view.items).all (fun g =>
+      (g.members.filter GenMember.isFn).isEmpty || keptMethods ev g.members == keptTraitFns ev t.fns) = true ∧
+    (match mainImpl? out.view with
+     | some im => keptMethods ev im.members == keptTraitFns ev t.fns
+     | none => false) = true := by
+  obtain ⟨a0, fns, delegation, _, h2, h3, rfl⟩ := expandTrait_ok h
+  have hf := analyzeTraitMembers_ok _ _ h2
+  have himpl := mainImpl_last [] [] ([GenItem.trait (genTraitDef (v.apply a0.opts) .trait .generic t.attrs t.vis t.ident
+      (traitTg t) (traitSup t) fns .rawTrait)] ++ delegation) (traitImplBlock { a0 with opts := v.apply a0.opts } t fns)
+  have hfns : ∀ (g : TraitFn → TraitFn), (∀ tf, (g tf).attrs = tf.attrs) → (∀ tf, (g tf).sig.ident = tf.sig.ident) →
+      ((fns.map g).filter (fun tf => kept ev tf.attrs)).map (·.sig.ident) = keptTraitFns ev t.fns := by
+    intro g ha hi
+    rw [← kept_traitFnOf, hf]
+    simp only [TraitItem.fns]
+    generalize (t.members.filterMap TraitMember.fn?).map traitFnOf = xs
+    induction xs with
+    | nil => rfl
+    | cons x xs ih =>
+      rw [List.map_cons, List.filter_cons, List.filter_cons, ha]
+      cases kept ev x.attrs
+      · simpa using ih
+      · simp only [if_true, List.map_cons, hi, ih]
+  have hmain : ∀ (o : Opts) (ind : TraitIndirection) (subs : List Attr) (vis : Toks) (id : String) (tg : TraitGenerics)
+      (sup : Supertraits) (g : TraitFn → TraitFn), (∀ tf, (g tf).attrs = tf.attrs) → (∀ tf, (g tf).sig.ident = tf.sig.ident) →
+      keptMethods ev (genTraitDef o ind .generic subs vis id tg sup (fns.map g) .rawTrait).members = keptTraitFns ev t.fns := by
+    intro o ind subs vis id tg sup g ha hi
+    simp only [genTraitDef]
+    rw [keptMethods_map ev _ (fun tf => C08.makeTraitFnSig_ident _ _ _)]
+    exact hfns g ha hi
+  have hstatA : ∀ tf, (staticImplFn tf).attrs = tf.attrs := by
+    intro tf; unfold staticImplFn; split <;> rfl
+  have hstatI : ∀ tf, (staticImplFn tf).sig.ident = tf.sig.ident := by
+    intro tf; unfold staticImplFn; split <;> rfl
+  have hdynA : ∀ tf, (dynamicImplFn tf).attrs = tf.attrs := by
+    intro tf; unfold dynamicImplFn; split <;> rfl
+  have hdynI : ∀ tf, (dynamicImplFn tf).sig.ident = tf.sig.ident := by
+    intro tf; unfold dynamicImplFn; split <;> rfl
+  constructor
+  · have hid := hmain (v.apply a0.opts) .trait t.attrs t.vis t.ident (traitTg t) (traitSup t) id (fun _ => rfl) (fun _ => rfl)
+    simp only [List.map_id_fun, id_eq] at hid
+    simp only [Out.view, Out.inside, Out.after, View.items, List.nil_append, List.cons_append, traitsOf_append, traitsOf,
+      List.append_nil, List.all_cons, Bool.and_eq_true, Bool.or_eq_true, beq_iff_eq]
+    refine ⟨Or.inr hid, ?_⟩
+    unfold genDelegationTraitDefs at h3
+    split at h3
+    · cases h3; rfl
+    · split at h3
+      · cases h3
+        simp only [traitsOf, List.all_cons, List.all_nil, Bool.and_true, Bool.and_eq_true, Bool.or_eq_true, beq_iff_eq]
+        exact ⟨Or.inr (hmain _ _ _ _ _ _ _ staticImplFn hstatA hstatI), Or.inl rfl⟩
+      · cases h3
+        simp only [traitsOf, List.all_cons, List.all_nil, Bool.and_true, Bool.or_eq_true, beq_iff_eq]
+        exact Or.inr (hmain _ _ _ _ _ _ _ dynamicImplFn hdynA hdynI)
+      · cases h3
+  · simp only [Out.view, Out.inside, Out.after, himpl, beq_iff_eq]
+    simp only [traitImplBlock]
+    have : (fns.map (delegationMethod { a0 with opts := v.apply a0.opts } (traitContainsAsync t))) =
+        fns.map (fun tf => GenMember.fn tf.attrs { tf.sig with inputs := fixParams tf.sig.ident tf.sig.inputs }
+          (some (delegationCall { a0 with opts := v.apply a0.opts } (traitContainsAsync t) tf.sig.ident
+            (paramIdents (fixParams tf.sig.ident tf.sig.inputs)) ++ (if tf.originallyAsync then [p '.', i "await"] else [])))) := by
+      apply List.map_congr_left
+      intro tf _
+      rfl
+    rw [this, keptMethods_map ev (fun tf => { tf.sig with inputs := fixParams tf.sig.ident tf.sig.inputs }) (fun _ => rfl)]
+    have := hfns id (fun _ => rfl) (fun _ => rfl)
+    simpa using this
+
 /-! ### the same reading for any output on which the predicates hold (in particular the real macro's)
 
   `P_C18` and `P_C08` are evaluated on the output of the real macro for every generated case.  The next
@@ -209,5 +300,16 @@ example :
                    (implsOf out.view.items).map (fun im => keptMethods ev im.members),
                    keptFns ev (Item.mod_ Examples.modCfg).sourceFns)
      | _ => ([], [], [])) = ([["c"]], [["c"]], ["c"]) := by decide +kernel
+
+/-- non-vacuity (trait mode): `#[entrait(CfImpl, delegate_by = ref)] pub trait Cf { #[cfg(any())] fn gone(&self); fn here(&self); }` —
+    in a build where `any()` is false the re-emitted trait, the delegation-target trait `CfImpl` and the impl for
+    `Impl<T>` all keep exactly `here` -/
+example :
+    let ev : Toks → Bool := fun ts => ts != [i "cfg", parens [i "any", parens []]]
+    (match expand .plain [i "CfImpl", p ',', i "delegate_by", p '=', i "ref"] (.trait Examples.traitCfg) with
+     | .ok out => ((traitsOf out.view.items).map (fun t => keptMethods ev t.members),
+                   (mainImpl? out.view).map (fun im => keptMethods ev im.members),
+                   keptTraitFns ev Examples.traitCfg.fns)
+     | _ => ([], none, [])) = ([["here"], ["here"]], some ["here"], ["here"]) := by decide +kernel
 
 end Entrait.C18Sem
